@@ -512,6 +512,8 @@ func (m *otMap) apply(proxy otProxy, plan *otShapePlan, font *Font, buffer *Buff
 			if accel.digest.mayHaveDigest(c.digest) {
 
 				c.lookupIndex = lookupIndex
+				// the cache of the last base glyph is only valid inside one lookup
+				c.lastBase, c.lastBaseUntil = -1, 0
 				c.lookupMask = lookup.mask
 				c.autoZWJ = lookup.autoZWJ
 				c.autoZWNJ = lookup.autoZWNJ
